@@ -83,7 +83,7 @@ def make_groups(scn):
                 hpc_type="slurm",
                 job_prefix=f"pre{gi}",
                 hpc=SlurmConfig(account=f"acct_{gi}", walltime=group_walltime(g), partition=f"part_{gi}-x",
-                                qos=("high_prio" if gi % 2 else None)),
+                                qos=("high_prio" if gi % 2 else None), nodes=scn.get("nodes", 1)),
             )
         sp = SubmitterParams(
             hpc_config=hpc,
